@@ -228,8 +228,8 @@ Proof. exact src_encode_dl_loop_eq. Qed.
 Print Assumptions C20_source_tie_encode_loop.
 
 (* the resynchronisation scan `for end in range(begin + 1, len(input)): ... else: ...` *)
-Theorem C20_source_tie_decode_scan : forall ops input cap b cnt e,
-  src_iconv_decode_dl_for ops input cap b cnt e =
+Theorem C20_source_tie_decode_scan : forall ops input b cnt e,
+  src_iconv_decode_dl_for ops input b cnt e =
   of_dec (match scan_end input (Z.of_nat (length input)) cnt e with
           | Ok e' => Err (b, e') | Err x => Err x | Crash c => Crash c end).
 Proof. exact src_decode_dl_for_eq. Qed.
